@@ -30,6 +30,14 @@
 (*   gate, pending, crashed   the accept gate (can_accept), accept_ready   *)
 (*         and whether the worker thread panicked (environment actions     *)
 (*         Env_* model client connections saturating the worker)           *)
+(*   ralt  clusters whose CURRENT definition, as the proxies hold it, is    *)
+(*         the alternative one (AddClusterAlt: https_redirect, PROXY        *)
+(*         protocol towards tcp / udp backends): a cluster is a definition, *)
+(*         not only an id; AddCluster again REDEFINES it                    *)
+(*   rl (udp listeners): ucid = the cluster of the listener's frontend      *)
+(*         (listener.cluster_id / cluster_for_listener), mcl / mpp = the    *)
+(*         cluster and the PROXY-protocol knob the listener's flow manager  *)
+(*         currently routes NEW flows with (its captured ClusterConfig)     *)
 (*   held  listener addresses bound by a FOREIGN socket without            *)
 (*         SO_REUSEPORT (another daemon, a previous instance not yet gone):*)
 (*         server_bind / udp_bind on such an address fails (C07: a refused *)
@@ -46,6 +54,7 @@ CONSTANTS Listeners,     \* subset of DOMAIN LDef
           HFronts,       \* subset of DOMAIN FDef
           TFronts,       \* subset of DOMAIN TDef
           Backends,      \* subset of DOMAIN BDef
+          UFronts,       \* subset of DOMAIN UDef
           Verbs,         \* request kinds enabled in this configuration
           MaxReq,        \* bound on the number of requests
           AfterStop,     \* request kinds still sent after a SoftStop was received
@@ -60,13 +69,14 @@ VARIABLES cfg, rl, slabL, base, rcl, rbe, queue, out, n, term, shut, stopped, ha
           gate,     \* SessionManager.can_accept
           pending,  \* accept_ready: listen tokens whose readiness was remembered while the gate was closed
           crashed,  \* the worker thread panicked
-          held      \* addresses (LDef[l].addr) bound by a foreign socket without SO_REUSEPORT
+          held,     \* addresses (LDef[l].addr) bound by a foreign socket without SO_REUSEPORT
+          ralt      \* clusters the proxies hold in their alternative definition
 
 vars == <<cfg, rl, slabL, base, rcl, rbe, queue, out, n, term, shut, stopped, handed, allOk, hist, prev,
-          gate, pending, crashed, held>>
+          gate, pending, crashed, held, ralt>>
 
 \* what distinguishes states for the model checker (out, hist and prev are histories)
-MCView == <<cfg, rl, slabL, base, rcl, rbe, queue, n, term, shut, stopped, handed, allOk, gate, pending, crashed, held>>
+MCView == <<cfg, rl, slabL, base, rcl, rbe, queue, n, term, shut, stopped, handed, allOk, gate, pending, crashed, held, ralt>>
 \* generator: one TLC state per (state, request) transition
 GenView == <<MCView, prev, IF hist = <<>> THEN <<>> ELSE hist[Len(hist)]>>
 
@@ -80,7 +90,10 @@ LDef == [hA |-> [proto |-> "http",  addr |-> "A"],
          hB |-> [proto |-> "http",  addr |-> "B"],
          tC |-> [proto |-> "tcp",   addr |-> "C"],
          sD |-> [proto |-> "https", addr |-> "D"],
-         uE |-> [proto |-> "udp",   addr |-> "E"]]
+         uE |-> [proto |-> "udp",   addr |-> "E"],
+         \* a second listener of the same kind (address letters = harness address slots: F, G, H are backends)
+         uF |-> [proto |-> "udp",   addr |-> "I"],
+         tG |-> [proto |-> "tcp",   addr |-> "J"]]
 
 FDef == [f1 |-> [cluster |-> "c1", l |-> "hA", host |-> "a"],
          f2 |-> [cluster |-> "c2", l |-> "hA", host |-> "b"],
@@ -88,9 +101,18 @@ FDef == [f1 |-> [cluster |-> "c1", l |-> "hA", host |-> "a"],
          f4 |-> [cluster |-> "c1", l |-> "hB", host |-> "a"]]
 
 TDef == [t1 |-> [cluster |-> "c1", l |-> "tC"],
-         t2 |-> [cluster |-> "c2", l |-> "tC"]]
+         t2 |-> [cluster |-> "c2", l |-> "tC"],
+         t3 |-> [cluster |-> "c1", l |-> "tG"]]   \* the cluster of t1, published on a second tcp listener
+
+\* udp frontends: one cluster published on two listeners (u1, u2), two clusters on one listener (u1, u3)
+UDef == [u1 |-> [cluster |-> "c1", l |-> "uE"],
+         u2 |-> [cluster |-> "c1", l |-> "uF"],
+         u3 |-> [cluster |-> "c2", l |-> "uE"]]
 
 BDef == [b1 |-> [cluster |-> "c1"], b2 |-> [cluster |-> "c2"], b3 |-> [cluster |-> "c1"]]
+\* what a backend reports when the bytes it received were preceded by a PROXY protocol v2 header
+WithPP == [b1 |-> "b1+pp", b2 |-> "b2+pp", b3 |-> "b3+pp"]
+Tag(b, pp) == IF pp THEN WithPP[b] ELSE b
 
 Hosts == {"a", "b", "z"}          \* "z" is never configured
 
@@ -100,13 +122,34 @@ SameKey(f, g) == FDef[f].l = FDef[g].l /\ FDef[f].host = FDef[g].host
 WorkerKinds  == {"Status", "QueryHashes", "QueryDomain", "QueryMetrics", "ConfigureMetrics", "Logging",
                  "SetMaxConn", "QueryMaxConn", "MetricDetailOk", "MetricDetailBad", "QueryCertsAll",
                  "QueryCertsFp"}
-ClusterKinds == {"QueryCluster", "AddCluster", "AddClusterBadHc", "RemoveCluster", "SetHc", "SetHcBad", "RemoveHc"}
+ClusterKinds == {"QueryCluster", "AddCluster", "AddClusterAlt", "AddClusterBadHc", "RemoveCluster", "SetHc", "SetHcBad",
+                 "RemoveHc"}
 BackendKinds == {"AddBackend", "RemoveBackend"}
 HFrontKinds  == {"AddHFront", "RemoveHFront"}
 TFrontKinds  == {"AddTFront", "RemoveTFront"}
+UFrontKinds  == {"AddUFront", "RemoveUFront"}
 ListenKinds  == {"AddListener", "RemoveListener", "Activate", "Deactivate", "UpdateListener", "UpdateListenerBad"}
 StopKinds    == {"ReturnSockets", "SoftStop", "HardStop"}
-ReadOnlyKinds == WorkerKinds \cup {"QueryCluster"}
+\* Malformed requests. The wire format is protobuf: an enum field is an open i32 (any value survives
+\* decoding), the request oneof may be absent, a request kind meant for the main process decodes on a
+\* worker all the same. Every one of them is a command the worker RECEIVED: exactly one terminal
+\* answer, Ok or Failure (status "final": the property does not say which).
+\*   *BadType            ListenerType outside the enum (target = the address of listener a)
+\*   NoType              Request without request_type;  ForeignKind  a main-process-only kind (ListWorkers)
+\*   ConfigureMetricsBad / MetricDetailBadEnum   MetricsConfiguration / MetricDetail outside the enum
+\*   AddHFrontBadPos / AddHFrontBadKind          RulePosition / PathRuleKind outside the enum (frontend a)
+\*   AddClusterBadEnums  LoadBalancingAlgorithms, LoadMetric, ProxyProtocolConfig, UdpAffinityKey outside
+\*                       their enums: the code falls back to the defaults, i.e. it is a plain AddCluster
+MalformedListenKinds  == {"RemoveListenerBadType", "ActivateBadType", "DeactivateBadType"}
+MalformedPlainKinds   == {"NoType", "ForeignKind", "ConfigureMetricsBad", "MetricDetailBadEnum"}
+MalformedFrontKinds   == {"AddHFrontBadPos", "AddHFrontBadKind"}
+MalformedClusterKinds == {"AddClusterBadEnums"}
+\* refused outright: nothing changes, neither in the configuration nor in the proxies
+RefusedMalformed == MalformedListenKinds \cup MalformedPlainKinds \cup MalformedFrontKinds
+MalformedKinds   == RefusedMalformed \cup MalformedClusterKinds
+\* (ConfigState::dispatch has no opinion on the two worker-level verbs: it answers Ok without looking)
+MalformedAccepted == {"ConfigureMetricsBad", "MetricDetailBadEnum", "AddClusterBadEnums"}
+ReadOnlyKinds == WorkerKinds \cup {"QueryCluster"} \cup RefusedMalformed
 
 AllRequests ==
        [k : WorkerKinds \cup StopKinds, a : {""}]
@@ -114,6 +157,11 @@ AllRequests ==
   \cup [k : BackendKinds, a : Backends]
   \cup [k : HFrontKinds, a : HFronts]
   \cup [k : TFrontKinds, a : TFronts]
+  \cup [k : UFrontKinds, a : UFronts]
+  \cup [k : MalformedListenKinds, a : Listeners]
+  \cup [k : MalformedPlainKinds, a : {""}]
+  \cup [k : MalformedFrontKinds, a : HFronts]
+  \cup [k : MalformedClusterKinds, a : Clusters]
   \cup [k : ListenKinds \ {"UpdateListenerBad"}, a : Listeners]
   \* only HTTP(S) listener patches carry values that can be invalid
   \cup [k : {"UpdateListenerBad"}, a : {l \in Listeners : LDef[l].proto \in {"http", "https"}}]
@@ -125,16 +173,25 @@ Requests == {r \in AllRequests : r.k \in Verbs}
 (* CfgStep returns [ok, c]: the verdict and the state afterwards (a        *)
 (* rejected request leaves the state unchanged).                           *)
 
-CfgInit == [lst |-> [l \in Listeners |-> "absent"], cl |-> {}, hc |-> {}, hf |-> {}, tf |-> {}, be |-> {}]
+\* ghost: ConfigState files an http frontend whose PathRuleKind is outside the enum under ONE degenerate
+\* key ("Wrong variant of PathRuleKind"), whatever its address and hostname: the listener of the single
+\* such frontend it holds ("none": there is none). No router ever serves it.
+CfgInit == [lst |-> [l \in Listeners |-> "absent"], cl |-> {}, hc |-> {}, hf |-> {}, tf |-> {}, be |-> {},
+            uf |-> {}, alt |-> {}, ghost |-> "none"]
 
 Acc(c) == [ok |-> TRUE, c |-> c]
 Rej(c) == [ok |-> FALSE, c |-> c]
 
 CfgStep(c, r) ==
   LET a == r.a IN
-  CASE r.k = "AddCluster"      -> Acc([c EXCEPT !.cl = @ \cup {a}, !.hc = @ \ {a}])   \* upsert: replaces the cluster
+  CASE r.k \in {"AddCluster", "AddClusterBadEnums"}                                     \* upsert: replaces the cluster
+                               -> Acc([c EXCEPT !.cl = @ \cup {a}, !.hc = @ \ {a}, !.alt = @ \ {a}])
+    [] r.k = "AddClusterAlt"   -> Acc([c EXCEPT !.cl = @ \cup {a}, !.hc = @ \ {a}, !.alt = @ \cup {a}])
     [] r.k = "AddClusterBadHc" -> Rej(c)
-    [] r.k = "RemoveCluster"   -> IF a \in c.cl THEN Acc([c EXCEPT !.cl = @ \ {a}, !.hc = @ \ {a}]) ELSE Rej(c)
+    [] r.k = "RemoveCluster"   -> IF a \in c.cl THEN Acc([c EXCEPT !.cl = @ \ {a}, !.hc = @ \ {a}, !.alt = @ \ {a}])
+                                  ELSE Rej(c)
+    [] r.k = "AddHFrontBadKind" -> IF c.ghost = "none" THEN Acc([c EXCEPT !.ghost = FDef[a].l]) ELSE Rej(c)
+    [] r.k \in RefusedMalformed -> IF r.k \in MalformedAccepted THEN Acc(c) ELSE Rej(c)
     [] r.k = "SetHc"           -> IF a \in c.cl THEN Acc([c EXCEPT !.hc = @ \cup {a}]) ELSE Rej(c)
     [] r.k = "SetHcBad"        -> Rej(c)
     [] r.k = "RemoveHc"        -> IF a \in c.cl THEN Acc([c EXCEPT !.hc = @ \ {a}]) ELSE Rej(c)
@@ -149,6 +206,12 @@ CfgStep(c, r) ==
                                           /\ \E g \in c.tf : TDef[g].l = TDef[a].l THEN Rej(c)
                                   ELSE Acc([c EXCEPT !.tf = @ \cup {a}])
     [] r.k = "RemoveTFront"    -> IF a \in c.tf THEN Acc([c EXCEPT !.tf = @ \ {a}]) ELSE Rej(c)
+    \* udp frontends are keyed like tcp frontends (cluster, address): same reading, same open deviation
+    [] r.k = "AddUFront"       -> IF a \in c.uf THEN Rej(c)
+                                  ELSE IF "TcpFrontLastWins" \notin Deviations
+                                          /\ \E g \in c.uf : UDef[g].l = UDef[a].l THEN Rej(c)
+                                  ELSE Acc([c EXCEPT !.uf = @ \cup {a}])
+    [] r.k = "RemoveUFront"    -> IF a \in c.uf THEN Acc([c EXCEPT !.uf = @ \ {a}]) ELSE Rej(c)
     [] r.k = "AddListener"     -> IF c.lst[a] = "absent" THEN Acc([c EXCEPT !.lst[a] = "inactive"]) ELSE Rej(c)
     [] r.k = "RemoveListener"  -> IF c.lst[a] = "absent" THEN Rej(c)
                                   \* property reading: frontends go away with their listener;
@@ -156,7 +219,9 @@ CfgStep(c, r) ==
                                   ELSE IF "OrphanFronts" \in Deviations THEN Acc([c EXCEPT !.lst[a] = "absent"])
                                   ELSE Acc([c EXCEPT !.lst[a] = "absent",
                                                       !.hf = {g \in @ : FDef[g].l # a},
-                                                      !.tf = {g \in @ : TDef[g].l # a}])
+                                                      !.tf = {g \in @ : TDef[g].l # a},
+                                                      !.uf = {g \in @ : UDef[g].l # a},
+                                                      !.ghost = IF @ = a THEN "none" ELSE @])
     [] r.k = "Activate"        -> IF c.lst[a] = "absent" THEN Rej(c) ELSE Acc([c EXCEPT !.lst[a] = "active"])
     [] r.k = "Deactivate"      -> IF c.lst[a] = "absent" THEN Rej(c) ELSE Acc([c EXCEPT !.lst[a] = "inactive"])
     [] r.k = "UpdateListener"  -> IF c.lst[a] = "absent" THEN Rej(c) ELSE Acc(c)
@@ -177,18 +242,44 @@ WorkerStatus(k) == IF k \in {"MetricDetailBad", "QueryCertsFp"} THEN "failure" E
 \* (HashMap iteration order when an address was added twice)
 RouteHosts(x) == {FDef[f].host : f \in x.routes}
 
-\* one Recv step on the proxies: [st, rl, slabL, base, rcl, rbe]; the choice of
+\* a fresh proxy listener
+NewListener(l, tok) == [l |-> l, tok |-> tok, active |-> FALSE, sock |-> FALSE, routes |-> {}, tcl |-> "none",
+                        ucid |-> "none", mcl |-> "none", mpp |-> FALSE]
+
+\* UdpProxy: the listeners whose frontend routes to cluster c (cluster_for_listener)
+UdpBoundTo(c) == {x \in rl : x.ucid = c}
+\* an AddCluster / RemoveCluster reaches the flow manager of EVERY udp listener routing to the cluster:
+\* SetCluster(cluster, knobs) resp. SetCluster(default). (Deviation ClusterOneListenerOnly, self-test: a
+\* lookup by cluster id that knows a single listener per cluster.)
+UdpRebind(c, to, pp) ==
+  LET hit == UdpBoundTo(c)
+      upd(x) == [x EXCEPT !.mcl = to, !.mpp = pp]
+  IN IF "ClusterOneListenerOnly" \in Deviations /\ hit # {}
+     THEN {(rl \ {y}) \cup {upd(y)} : y \in hit}
+     ELSE {(rl \ hit) \cup {upd(x) : x \in hit}}
+
+\* one Recv step on the proxies: [st, rl, slabL, base, rcl, rbe, ralt]; the choice of
 \* `x` is the code's (values().find over a HashMap)
 RtOutcomes(r) ==
   LET a == r.a
-      same == [st |-> "ok", rl |-> rl, slabL |-> slabL, base |-> base, rcl |-> rcl, rbe |-> rbe]
+      same == [st |-> "ok", rl |-> rl, slabL |-> slabL, base |-> base, rcl |-> rcl, rbe |-> rbe, ralt |-> ralt]
       fail == [same EXCEPT !.st = "failure"]
   IN
   CASE r.k \in WorkerKinds -> {[same EXCEPT !.st = WorkerStatus(r.k)]}
+    \* a malformed request is refused without touching anything; its one answer is Ok or Failure
+    [] r.k \in RefusedMalformed -> {[same EXCEPT !.st = "final"]}
     [] r.k = "QueryCluster"    -> {same}
-    [] r.k = "AddCluster"      -> {[same EXCEPT !.rcl = @ \cup {a}]}
+    \* http / tcp proxies: the definition replaces the one they held; udp proxy: every listener routing
+    \* to the cluster takes the new knobs for its new flows
+    [] r.k \in {"AddCluster", "AddClusterBadEnums"} ->
+         {[same EXCEPT !.st = IF r.k = "AddCluster" THEN "ok" ELSE "final",
+                       !.rcl = @ \cup {a}, !.ralt = @ \ {a}, !.rl = nrl] : nrl \in UdpRebind(a, a, FALSE)}
+    [] r.k = "AddClusterAlt"   ->
+         {[same EXCEPT !.rcl = @ \cup {a}, !.ralt = @ \cup {a}, !.rl = nrl] : nrl \in UdpRebind(a, a, TRUE)}
     [] r.k = "AddClusterBadHc" -> {fail}
-    [] r.k = "RemoveCluster"   -> {[same EXCEPT !.rcl = @ \ {a}]}            \* never fails on a worker
+    \* never fails on a worker; udp listeners routing to the cluster stop forwarding new flows
+    [] r.k = "RemoveCluster"   ->
+         {[same EXCEPT !.rcl = @ \ {a}, !.ralt = @ \ {a}, !.rl = nrl] : nrl \in UdpRebind(a, "none", FALSE)}
     [] r.k = "SetHc"           -> {same}
     [] r.k = "SetHcBad"        -> {fail}
     [] r.k = "RemoveHc"        -> {same}
@@ -210,9 +301,21 @@ RtOutcomes(r) ==
     [] r.k = "RemoveTFront" ->
          IF Entries(TDef[a].l) = {} THEN {fail}
          ELSE {[same EXCEPT !.rl = (rl \ {x}) \cup {[x EXCEPT !.tcl = "none"]}] : x \in Entries(TDef[a].l)}
+    \* UdpProxy::add_udp_front: the listener's single cluster is replaced, its manager routes new flows
+    \* to it with the knobs of the cluster's last definition (cached), defaults when there is none
+    [] r.k = "AddUFront" ->
+         IF Entries(UDef[a].l) = {} THEN {fail}
+         ELSE {[same EXCEPT !.rl = (rl \ {x}) \cup {[x EXCEPT !.ucid = UDef[a].cluster, !.mcl = UDef[a].cluster,
+                                                            !.mpp = (UDef[a].cluster \in ralt)]}]
+               : x \in Entries(UDef[a].l)}
+    \* remove_udp_front: whatever cluster the request names, the listener loses its cluster
+    [] r.k = "RemoveUFront" ->
+         IF Entries(UDef[a].l) = {} THEN {fail}
+         ELSE {[same EXCEPT !.rl = (rl \ {x}) \cup {[x EXCEPT !.ucid = "none", !.mcl = "none", !.mpp = FALSE]}]
+               : x \in Entries(UDef[a].l)}
     [] r.k = "AddListener" ->
          \* a vacant slab key becomes the listen token; duplicates of an address are not refused
-         {[same EXCEPT !.rl = @ \cup {[l |-> a, tok |-> FreshTok, active |-> FALSE, sock |-> FALSE, routes |-> {}, tcl |-> "none"]},
+         {[same EXCEPT !.rl = @ \cup {NewListener(a, FreshTok)},
                        !.slabL = @ \cup {FreshTok}, !.base = @ + 1]}
     [] r.k = "RemoveListener" ->
          \* every listener bound to the address goes away with its slab entry and its unit of base;
@@ -241,7 +344,13 @@ RtOutcomes(r) ==
          IF Entries(a) = {} THEN {fail}
          ELSE {IF x.sock THEN [same EXCEPT !.rl = (rl \ {x}) \cup {[x EXCEPT !.active = FALSE, !.sock = FALSE]}] ELSE fail
                : x \in Entries(a)}                                            \* the slab entry stays
-    [] r.k = "UpdateListener"    -> IF Entries(a) = {} THEN {fail} ELSE {same}
+    \* UdpProxy::update_listener rebuilds the manager's ClusterConfig from the listener's frontend
+    \* cluster and the cached knobs (also after a RemoveCluster: the frontend is still there)
+    [] r.k = "UpdateListener"    ->
+         IF Entries(a) = {} THEN {fail}
+         ELSE IF LDef[a].proto # "udp" THEN {same}
+         ELSE {[same EXCEPT !.rl = (rl \ {x}) \cup {[x EXCEPT !.mcl = x.ucid, !.mpp = (x.ucid \in ralt)]}]
+               : x \in Entries(a)}
     [] r.k = "UpdateListenerBad" -> {fail}
     \* give_back_listeners: every listener that holds a socket hands it over and lowers its flag
     [] r.k = "ReturnSockets" -> {[same EXCEPT !.rl = {IF x.sock THEN [x EXCEPT !.active = FALSE, !.sock = FALSE] ELSE x
@@ -268,7 +377,7 @@ PreState(k) ==
            tok == SysEntries + Cardinality(p.slabL)
        IN CASE r.k = "AddListener" ->
                  [cfg |-> [p.cfg EXCEPT !.lst[r.a] = "inactive"],
-                  rl |-> p.rl \cup {[l |-> r.a, tok |-> tok, active |-> FALSE, sock |-> FALSE, routes |-> {}, tcl |-> "none"]},
+                  rl |-> p.rl \cup {NewListener(r.a, tok)},
                   slabL |-> p.slabL \cup {tok}, base |-> p.base + 1]
             [] r.k = "Activate" ->
                  [p EXCEPT !.cfg.lst[r.a] = "active",
@@ -285,7 +394,7 @@ Init ==
   /\ hist = [i \in 1..Len(Preamble) |->
                [req |-> Preamble[i], st |-> "ok", accepted |-> TRUE, base |-> PreState(i).base]]
   /\ prev = <<>>
-  /\ gate = TRUE /\ pending = {} /\ crashed = FALSE /\ held = {}
+  /\ gate = TRUE /\ pending = {} /\ crashed = FALSE /\ held = {} /\ ralt = {}
 
 \* read_channel_messages_and_notify: one request
 Recv(r) ==
@@ -303,9 +412,9 @@ Recv(r) ==
                        ELSE pending
         /\ UNCHANGED <<gate, crashed, held>>
         /\ cfg' = cs.c
-        /\ rcl' = o.rcl /\ rbe' = o.rbe
+        /\ rcl' = o.rcl /\ rbe' = o.rbe /\ ralt' = o.ralt
         /\ handed' = (handed \/ r.k = "ReturnSockets")
-        /\ allOk' = (allOk /\ (r.k \in ReadOnlyKinds \/ (cs.ok /\ o.st = "ok")))
+        /\ allOk' = (allOk /\ (r.k \in ReadOnlyKinds \/ (cs.ok /\ o.st \in {"ok", "final"})))
         /\ IF r.k = "SoftStop" /\ shut # 0
            THEN \* a second soft stop is refused, the pending one keeps its id
                 /\ queue' = Append(queue, Resp(id, "failure"))
@@ -327,6 +436,11 @@ Recv(r) ==
                 /\ rl' = o.rl /\ slabL' = o.slabL /\ base' = o.base
                 /\ UNCHANGED shut
                 /\ hist' = Append(hist, [req |-> r, st |-> "ok", accepted |-> cs.ok, base |-> o.base])
+           ELSE IF r.k \in MalformedKinds /\ "MalformedUnanswered" \in Deviations
+           THEN \* self-test: the arm that built the answer of a malformed request is missing
+                /\ rl' = o.rl /\ slabL' = o.slabL /\ base' = o.base
+                /\ UNCHANGED <<queue, term, shut, stopped, out>>
+                /\ hist' = Append(hist, [req |-> r, st |-> "none", accepted |-> cs.ok, base |-> o.base])
            ELSE /\ queue' = Append(queue, Resp(id, o.st))
                 /\ term' = [term EXCEPT ![id] = 1]
                 /\ rl' = o.rl /\ slabL' = o.slabL /\ base' = o.base
@@ -337,7 +451,7 @@ Recv(r) ==
 Flush ==
   /\ ~stopped /\ ~crashed /\ queue # <<>>
   /\ out' = out \o queue /\ queue' = <<>>
-  /\ UNCHANGED <<cfg, rl, slabL, base, rcl, rbe, n, term, shut, stopped, handed, allOk, hist, prev, gate, pending, crashed, held>>
+  /\ UNCHANGED <<cfg, rl, slabL, base, rcl, rbe, n, term, shut, stopped, handed, allOk, hist, prev, gate, pending, crashed, held, ralt>>
 
 \* end of a loop iteration while shutting down: shut_down_sessions (no client session is modelled
 \* here: the slab holds the system entries and the listener entries)
@@ -348,18 +462,18 @@ LoopEnd ==
   /\ out' = Append(out, Resp(shut, "ok"))
   /\ term' = [term EXCEPT ![shut] = @ + 1]
   /\ stopped' = TRUE
-  /\ UNCHANGED <<cfg, rl, slabL, base, rcl, rbe, queue, n, shut, handed, allOk, hist, prev, gate, pending, crashed, held>>
+  /\ UNCHANGED <<cfg, rl, slabL, base, rcl, rbe, queue, n, shut, handed, allOk, hist, prev, gate, pending, crashed, held, ralt>>
 
 \* Environment: client connections. max_connections is reached: check_limits closes the gate.
 Env_Saturate ==
   /\ Traffic /\ ~stopped /\ ~crashed /\ gate
   /\ gate' = FALSE
-  /\ UNCHANGED <<cfg, rl, slabL, base, rcl, rbe, queue, out, n, term, shut, stopped, handed, allOk, hist, prev, pending, crashed, held>>
+  /\ UNCHANGED <<cfg, rl, slabL, base, rcl, rbe, queue, out, n, term, shut, stopped, handed, allOk, hist, prev, pending, crashed, held, ralt>>
 \* ready(): a connection arrives on an active listener while the gate is closed: the token is remembered
 Env_Connect(x) ==
   /\ Traffic /\ ~stopped /\ ~crashed /\ ~gate /\ x \in rl /\ x.sock
   /\ pending' = pending \cup {x.tok}
-  /\ UNCHANGED <<cfg, rl, slabL, base, rcl, rbe, queue, out, n, term, shut, stopped, handed, allOk, hist, prev, gate, crashed, held>>
+  /\ UNCHANGED <<cfg, rl, slabL, base, rcl, rbe, queue, out, n, term, shut, stopped, handed, allOk, hist, prev, gate, crashed, held, ralt>>
 \* sessions close, decr() reopens the gate, handle_remaining_readiness replays every remembered token:
 \* it indexes the slab with the token (a vacant slot panics); accept() then forgets the token
 Env_Release ==
@@ -367,7 +481,7 @@ Env_Release ==
   /\ gate' = TRUE
   /\ IF pending \subseteq slabL THEN pending' = {} /\ UNCHANGED crashed
      ELSE crashed' = TRUE /\ UNCHANGED pending
-  /\ UNCHANGED <<cfg, rl, slabL, base, rcl, rbe, queue, out, n, term, shut, stopped, handed, allOk, hist, prev, held>>
+  /\ UNCHANGED <<cfg, rl, slabL, base, rcl, rbe, queue, out, n, term, shut, stopped, handed, allOk, hist, prev, held, ralt>>
 
 \* Environment: OS-level faults of the commands that touch sockets. A foreign process binds a listener
 \* address with a socket that has no SO_REUSEPORT (possible only while no proxy listener is bound to
@@ -381,12 +495,12 @@ Env_HoldAddress(a) ==
   /\ a \in ListenAddrs \ held /\ ~BoundBySozu(a)
   /\ held' = held \cup {a}
   /\ hist' = Append(hist, EnvStep("EnvHold", a)) /\ prev' = MCView
-  /\ UNCHANGED <<cfg, rl, slabL, base, rcl, rbe, queue, out, n, term, shut, stopped, handed, allOk, gate, pending, crashed>>
+  /\ UNCHANGED <<cfg, rl, slabL, base, rcl, rbe, queue, out, n, term, shut, stopped, handed, allOk, gate, pending, crashed, ralt>>
 Env_ReleaseAddress(a) ==
   /\ Faults /\ ~stopped /\ ~crashed /\ a \in held
   /\ held' = held \ {a}
   /\ hist' = Append(hist, EnvStep("EnvRelease", a)) /\ prev' = MCView
-  /\ UNCHANGED <<cfg, rl, slabL, base, rcl, rbe, queue, out, n, term, shut, stopped, handed, allOk, gate, pending, crashed>>
+  /\ UNCHANGED <<cfg, rl, slabL, base, rcl, rbe, queue, out, n, term, shut, stopped, handed, allOk, gate, pending, crashed, ralt>>
 EnvFault == \E a \in ListenAddrs : Env_HoldAddress(a) \/ Env_ReleaseAddress(a)
 
 Next == (\E r \in Requests : Recv(r)) \/ Flush \/ LoopEnd
@@ -404,10 +518,12 @@ RtListenerState(l) == IF Entries(l) = {} THEN "absent"
                       ELSE IF \E x \in Entries(l) : x.sock THEN "active" ELSE "inactive"
 RtRoutes == UNION {x.routes : x \in rl}
 RtTcp == {t \in TFronts : \E x \in Entries(TDef[t].l) : x.tcl = TDef[t].cluster}
+RtUdp == {u \in UFronts : \E x \in Entries(UDef[u].l) : x.ucid = UDef[u].cluster}
 
 \* what a client observes on listener l: connection refused, or (http) per host the set of admissible answers
 ClusterBackends(c) == {b \in rbe : BDef[b].cluster = c}
-Answer(c) == IF ClusterBackends(c) = {} THEN {"503"} ELSE ClusterBackends(c)
+\* the alternative definition of a cluster redirects plain-http requests (https_redirect), whatever its backends
+Answer(c) == IF c \in ralt THEN {"301"} ELSE IF ClusterBackends(c) = {} THEN {"503"} ELSE ClusterBackends(c)
 HttpProbe(l, h) ==
   LET act == {x \in Entries(l) : x.sock} IN
   IF act = {} THEN {"refused"}
@@ -417,10 +533,22 @@ HttpProbe(l, h) ==
 TcpProbe(l) ==
   LET act == {x \in Entries(l) : x.sock} IN
   IF act = {} THEN {"refused"}
-  ELSE UNION {IF x.tcl = "none" \/ ClusterBackends(x.tcl) = {} THEN {"closed"} ELSE ClusterBackends(x.tcl) : x \in act}
+  \* ... and makes the tcp proxy send a PROXY protocol header to the backend ahead of the client's bytes
+  ELSE UNION {IF x.tcl = "none" \/ ClusterBackends(x.tcl) = {} THEN {"closed"}
+              ELSE {Tag(b, x.tcl \in ralt) : b \in ClusterBackends(x.tcl)} : x \in act}
+\* one datagram of a NEW flow through udp listener l: dropped, or delivered to a backend of the cluster the
+\* listener's manager routes to, behind a PROXY protocol header iff the manager's knobs say so
+UdpProbe(l) ==
+  LET act == {x \in Entries(l) : x.sock} IN
+  IF act = {} THEN {"drop"}
+  ELSE UNION {IF x.mcl = "none" \/ ClusterBackends(x.mcl) = {} THEN {"drop"}
+              ELSE {Tag(b, x.mpp) : b \in ClusterBackends(x.mcl)} : x \in act}
 Probes == [l \in Listeners |->
              IF LDef[l].proto = "http" THEN [h \in Hosts |-> HttpProbe(l, h)]
              ELSE IF LDef[l].proto = "tcp" THEN [h \in {"-"} |-> TcpProbe(l)]
+             ELSE IF LDef[l].proto = "udp"
+             THEN [h \in {"-", "d"} |-> IF h = "d" THEN UdpProbe(l)
+                                       ELSE IF \E x \in Entries(l) : x.sock THEN {"open"} ELSE {"refused"}]
              ELSE [h \in {"-"} |-> IF \E x \in Entries(l) : x.sock THEN {"open"} ELSE {"refused"}]]
 
 ---------------------------------------------------------------------------
@@ -431,7 +559,7 @@ TypeOK ==
   /\ \A x \in rl : x.l \in Listeners /\ x.tok \in Nat /\ x.active \in BOOLEAN /\ x.sock \in BOOLEAN
   /\ rcl \subseteq Clusters /\ rbe \subseteq Backends
   /\ gate \in BOOLEAN /\ crashed \in BOOLEAN /\ pending \subseteq Nat
-  /\ held \subseteq ListenAddrs
+  /\ held \subseteq ListenAddrs /\ ralt \subseteq Clusters
 
 \* (a) exactly one terminal answer per received request; the pending soft stop has none yet
 P_C08_ExactlyOnce ==
@@ -447,8 +575,18 @@ P_C08_SoftStopCompletes == (shut # 0) ~> stopped
 P_C08_Converged ==
   allOk =>
     /\ rcl = cfg.cl /\ rbe = cfg.be
-    /\ (shut = 0 /\ ~stopped => RtRoutes = cfg.hf /\ RtTcp = cfg.tf)
+    /\ (shut = 0 /\ ~stopped => RtRoutes = cfg.hf /\ RtTcp = cfg.tf /\ RtUdp = cfg.uf)
+    \* a cluster is a definition: the proxies hold the CURRENT one, on every listener that routes to it
+    /\ ralt = cfg.alt
+    /\ \A x \in rl : /\ x.mcl # "none" => x.mcl = x.ucid
+                     /\ x.ucid \in cfg.cl => x.mcl = x.ucid /\ x.mpp = (x.ucid \in cfg.alt)
     /\ (shut = 0 /\ ~stopped /\ ~handed => \A l \in Listeners : RtListenerState(l) = cfg.lst[l])
+
+\* (b') a RemoveCluster answered Ok: no udp listener routes new flows to that cluster any more
+RemovedUnrouted ==
+  (n' = n + 1 /\ hist'[Len(hist')].req.k = "RemoveCluster" /\ hist'[Len(hist')].st = "ok")
+     => \A x \in rl' : x.mcl # hist'[Len(hist')].req.a
+P_C08_RemovedUnrouted == [][RemovedUnrouted]_vars
 
 \* (c) the quantity soft-stop completion depends on
 P_C08_BaseCount ==
